@@ -9,6 +9,7 @@ CONSTANTS
   Depth = 6
   CodeIds = {}
   Blocks = FALSE
+  MaxDep = 0
   Ops = {"setbalance", "snapshot", "reset"}
   SnapSlots = {2}
   HistOn = TRUE
